@@ -22,8 +22,11 @@ Transliteration of the Python classes:
   * `lru = true` is class `LRU` (only `__getitem__` differs: a hit moves the link to the
     front), `lru = false` is `LRI`.
 `max` is `max_size`; the constructor rejects `max_size <= 0`.
-`on_miss` is a function of the key that does not touch the cache; it may return a value, raise
-KeyError, or raise some other exception (`OmRes`).
+In this file `on_miss` is a function of the key that does not touch the cache; it may return a value, raise
+KeyError, or raise some other exception (`OmRes`).  A RE-ENTRANT on_miss — a callback that calls methods of the
+cache that is waiting for its result, branches on what they return, keeps state — is `Reent.lean`, built on
+the definitions below (`Reent`'s interpreter with callbacks that make no calls is exactly `step`:
+`Props.reentrant_pure_is_plain`).
 Every public method body runs under `self._lock`; one `step` = one atomic method call.
 Core Lean only.
 -/
